@@ -249,8 +249,10 @@ class ClimateNetwork(GeoNetwork):
         #  Load GeoGrid object
         grid = GeoGrid.Load(filename_grid)
 
-        #  Load similarity measure
-        similarity_measure = np.load(filename_similarity_measure)
+        #  Load similarity measure (save() stores it with ndarray.dump, i.e.
+        #  pickled, like the grid)
+        similarity_measure = np.load(filename_similarity_measure,
+                                     allow_pickle=True)
 
         #  Load to igraph Graph object
         graph = igraph.Graph.Read(f=filename_network, format=fileformat,
@@ -259,15 +261,22 @@ class ClimateNetwork(GeoNetwork):
         #  Extract adjacency matrix
         A = np.array(graph.get_adjacency(type=2).data)
 
-        #  Extract node weights
+        #  Extract node weights (the GML format strips the underscores from
+        #  attribute names)
         if "node_weight_nsi" in graph.vs.attribute_names():
             node_weights = np.array(
                 graph.vs.get_attribute_values("node_weight_nsi"))
+        elif "nodeweightnsi" in graph.vs.attribute_names():
+            node_weights = np.array(
+                graph.vs.get_attribute_values("nodeweightnsi"))
         else:
             node_weights = None
 
-        #  Create ClimateNetwork instance
+        #  Create ClimateNetwork instance (the constructor needs a threshold
+        #  or a link density: take the density of the stored graph, the stored
+        #  adjacency matrix is set below)
         net = ClimateNetwork(grid=grid, similarity_measure=similarity_measure,
+                             link_density=graph.density(),
                              directed=graph.is_directed(),
                              silence_level=silence_level)
         net.adjacency = A
